@@ -139,3 +139,31 @@ func init() {
 		Thorough:    plan{Builds: []buildCfg{{Race: true, Share: 2}, {Race: false, Share: 1}}, Secs: 600},
 	}
 }
+
+func init() {
+	props["C16"] = &propCfg{
+		Level:       "exploration",
+		Rule:        "a scenario is a seeded nested message (open, hybrid, opaque, lazily decoded, maps and lists of messages) and a history alternating read phases (1-3 clients concurrently calling Size / Marshal / MarshalAppend / deterministic Marshal / UseCachedSize pairs within their contract / getters / Clone / Equal; all of them fill size caches) with exclusive mutation phases (scalar sets, clears, submessage replacement, in-place mutation of list and map element messages, appends, truncation, unknown-field appends, Merge); the mutation log is the model: every Marshal result must decode to a twin rebuilt from the log into a never-sized message; non-trivial = at least one mutation before a read phase; distinct by hash of (type, operation sequence)",
+		Assumptions: append([]string{"UseCachedSize is used only immediately after Size with no intervening access by anyone (its documented contract)", "read phases on trees that still hold a non-minimal lazy encoding are single-client (C18 known finding)"}, commonAssumptions...),
+		Components:  comps(),
+		Clauses:     "every Marshal result (default, deterministic, MarshalAppend, UseCachedSize pair, of the root and of submessages, of clones) encodes the message's current content; Size equals the size of a never-sized message with the same content (minimal encodings); no size-mismatch error; concurrent readers filling caches do not disturb each other",
+		Probes:      []string{"read-phases-after-mutation", "mutations-applied", "concurrent-read-phases"},
+		FaultKinds:  []string{"sched-switch", "denormalised-wire"},
+		Quick:       plan{Builds: []buildCfg{{Race: false, Share: 2}, {Race: true, Share: 1}}, Secs: 30},
+		Thorough:    plan{Builds: []buildCfg{{Race: true, Share: 2}, {Race: false, Share: 2}, {Race: false, Tags: []string{"protoopaque"}, Share: 1}}, Secs: 600},
+	}
+}
+
+func init() {
+	props["C15"] = &propCfg{
+		Level:       "exploration",
+		Rule:        "a scenario is a seeded message type (open, hybrid, opaque, lazy, extension-bearing, dynamicpb) and a history of 2-12 operations (scalar/message sets and clears, generated setters, oneof switches, list/map edits, in-place element mutation, extension and unknown-field writes, lazy / eager / merging decodes, decodes that fail midway on truncated or corrupt input, partial expansion of lazy content, Marshal) followed by one erasing operation (Unmarshal without Merge, lazily or eagerly; proto.Reset; the generated Reset method); the result is compared with a fresh message after every buffer the message was ever decoded from has been overwritten; non-trivial = every scenario (each ends in an erasing operation after a non-empty history); distinct by hash of (type, operation sequence)",
+		Assumptions: commonAssumptions,
+		Components:  comps("owner of all earlier input buffers (overwrites them before the comparison)"),
+		Clauses:     "Unmarshal without Merge into a message with arbitrary history is Equal to (and has the same deterministic bytes, presence, oneof selection, unknown fields and extension set as) the same bytes decoded into a fresh message; proto.Reset yields a message indistinguishable from a fresh empty one",
+		Probes:      []string{"failed-decodes-in-history", "lazy-decodes-in-history", "dynamicpb-scenarios"},
+		FaultKinds:  []string{"failed-decode", "scribble"},
+		Quick:       plan{Builds: []buildCfg{{Race: false, Share: 1}}, Secs: 25},
+		Thorough:    plan{Builds: []buildCfg{{Race: false, Share: 3}, {Race: false, Tags: []string{"protoopaque"}, Share: 1}, {Race: false, Tags: []string{"protolegacy"}, Share: 1}}, Secs: 600},
+	}
+}
